@@ -182,6 +182,23 @@ let handle line =
       incr pn;
       bump ("LATER:" ^ res);
       if res <> "checked" then propfail line "later-lock-not-ignored" "no status check for a lock with start_ts > snapshot ts"
+  | ["BBUF"; hid; label; own; ks; dump; "=>"; res] ->
+      incr n; incr pn;
+      let own = n_of_hex own in
+      let wkeys = List.map (fun e -> match String.split_on_char ':' e with
+        | [k; st; ty; v] ->
+            let kind = (match ty with "Put" -> LPut (bytes_of_hex v) | "Del" -> LDel | "Lock" -> LLock | _ -> LPess) in
+            (bytes_of_hex k, { ks_ws = []; ks_lock = Some { l_start = n_of_hex st; l_kind = kind } })
+        | _ -> failwith ("bad lock dump " ^ e)) (split_on ',' dump) in
+      let w = { w_keys = wkeys; w_txns = [] } in
+      let exp = (match buffer_batch_get (nat_of_int 500) (fun _ -> EvOk) [] w own (keys_of ks) with
+        | Some l ->
+            let l = List.sort_uniq compare l in
+            show_kvs false (List.sort (fun (a, _) (b, _) -> match lex_cmp a b with Lt -> -1 | Eq -> 0 | Gt -> 1) l)
+        | None -> "model-out-of-fuel") in
+      bump ("BBUF:" ^ label ^ ":" ^ (if res = "-" then "empty" else if is_pref "err" res || is_pref "panic" res then "fail" else "pairs"));
+      Hashtbl.replace distinct ("U" ^ line) ();
+      if exp <> res then propfail line "buffer-tier<>own-flushed-locks" exp
   | "MODE" :: _ :: a :: c :: n :: _ ->
       bump ("MODE:" ^ a ^ ":" ^ c ^ (if n = "asyncRPCs=0" then ":no-async-rpc" else ":async-rpcs"))
   | [] | [""] -> ()
